@@ -90,7 +90,7 @@ class EOL(Leaf):
 
     def _pretty(self, lean=False):
         _ = lean
-        return EOL_SYM
+        return '$->'
 
 
 @nodedataclass
